@@ -36,6 +36,10 @@ type Scenario struct {
 	ErrBody string `json:"err_body"` // json | text : body kind of a backend error answer
 	Salt    string `json:"salt"`
 	SlowMs  int    `json:"slow_ms,omitempty"` // the backend only fails / answers after this long (the failure becomes known late)
+	// Strategy: "" = default (strict); "<type>-<fallback>" = model_registry.routing_strategy of that type (optimistic | discovery,
+	// the latter with discovery_refresh_on_miss) and fallback_behavior (all | none | compatible_only). Judged by the
+	// property's clauses on what the client saw; the handler model is not consulted for these
+	Strategy string `json:"strategy,omitempty"`
 }
 
 type Obs struct {
@@ -92,10 +96,16 @@ func run(sc *Scenario) *Obs {
 			b.Close()
 		}
 	}()
-	s, err := stack.Start(stack.Opts{Engine: sc.Engine, Balancer: "priority", EPs: eps, ModelDiscovery: true, Mutate: func(cfg *config.Config) {
+	s, err := stack.Start(stack.Opts{Vary: stack.VaryForJSON("c05", sc), Engine: sc.Engine, Balancer: "priority", EPs: eps, ModelDiscovery: true, Mutate: func(cfg *config.Config) {
 		cfg.Discovery.ModelDiscovery.Interval = time.Hour
 		cfg.Translators.Anthropic.Enabled = true
 		cfg.Translators.Anthropic.PassthroughEnabled = true
+		if typ, fb, ok := strings.Cut(sc.Strategy, "-"); ok {
+			cfg.ModelRegistry.RoutingStrategy.Type = typ
+			cfg.ModelRegistry.RoutingStrategy.Options.FallbackBehavior = fb
+			cfg.ModelRegistry.RoutingStrategy.Options.DiscoveryRefreshOnMiss = typ == "discovery"
+			cfg.ModelRegistry.RoutingStrategy.Options.DiscoveryTimeout = time.Second
+		}
 	}})
 	if err != nil {
 		obs.StartErr = err.Error()
@@ -294,6 +304,14 @@ func main() {
 					}
 					add(Scenario{Fault: "mixed", Route: route, Stream: stream, Engine: engine, N: 2, Status: 200})
 					add(Scenario{Fault: "mixed", Route: route, Stream: stream, Engine: engine, N: 3, Status: 200})
+					// the failures that are decided by routing, under the routing strategies an operator may configure
+					for _, strat := range []string{"optimistic-all", "discovery-all", "optimistic-none", "discovery-compatible_only"} {
+						for _, fault := range []string{"no-endpoints", "unknown-model", "refuse"} {
+							if tier == "thorough" || r.Chance(1, 2) {
+								add(Scenario{Fault: fault, Route: route, Stream: stream, Engine: engine, N: 1 + r.Intn(2), Status: 200, Strategy: strat})
+							}
+						}
+					}
 					statuses4 := []int{400, 404, 429}
 					statuses5 := []int{500, 503}
 					if tier == "thorough" {
